@@ -131,7 +131,15 @@ impl StateMachine<'_> {
             grep_line
         } else {
             line = self.line.clone(); // TODO: avoid clone
-            if let Some(grep_line) = parse_grep_line(&line) {
+            let of_previous_file = match &self.state {
+                State::Grep(_, _, path, line_number) => {
+                    parse_grep_line_of_file(&line, path, line_number.is_some())
+                }
+                _ => None,
+            };
+            if let Some(grep_line) = of_previous_file {
+                grep_line
+            } else if let Some(grep_line) = parse_grep_line(&line) {
                 grep_line
             } else {
                 return Ok(false);
@@ -766,6 +774,66 @@ pub fn parse_grep_line(line: &str) -> Option<GrepLine> {
             _ => None,
         }
     }
+}
+
+/// A line which starts like the previous one - the same file, a separator, a line number iff the
+/// previous line had one - is a line of that file: the code is not searched for something that
+/// might be the end of a longer path.
+fn parse_grep_line_of_file<'b>(
+    line: &'b str,
+    path: &str,
+    with_line_number: bool,
+) -> Option<GrepLine<'b>> {
+    if line.starts_with('{')
+        || !matches!(
+            &*process::calling_process(),
+            process::CallingProcess::GitGrep(_) | process::CallingProcess::OtherGrep
+        )
+    {
+        return None;
+    }
+    // (without line numbers, a name like `README` may just as well begin `README-fr.md`)
+    if !with_line_number
+        && !path
+            .rsplit('/')
+            .next()
+            .is_some_and(|name| name.contains('.'))
+    {
+        return None;
+    }
+    let rest = line.strip_prefix(path)?;
+    let (separator, line_type) = match rest.chars().next()? {
+        ':' => (':', LineType::Match),
+        '-' => ('-', LineType::Context),
+        '=' => ('=', LineType::ContextHeader),
+        _ => return None,
+    };
+    let rest = &rest[1..];
+    let (line_number, code) = if with_line_number {
+        let n_digits = rest.bytes().take_while(u8::is_ascii_digit).count();
+        if n_digits == 0 || !rest[n_digits..].starts_with(separator) {
+            return None;
+        }
+        (
+            Some(rest[..n_digits].parse::<usize>().ok()?),
+            &rest[n_digits + 1..],
+        )
+    } else {
+        let n_digits = rest.bytes().take_while(u8::is_ascii_digit).count();
+        if n_digits > 0 && rest[n_digits..].starts_with(separator) {
+            // (this may be a line number after all)
+            return None;
+        }
+        (None, rest)
+    };
+    Some(GrepLine {
+        grep_type: GrepType::Classic,
+        path: line[..path.len()].into(),
+        line_number,
+        line_type,
+        code: code.into(),
+        submatches: None,
+    })
 }
 
 pub fn parse_raw_grep_line(raw_line: &str) -> Option<GrepLine> {
